@@ -287,6 +287,19 @@ class SSLSocket:
             raise OSError
         return None
 
+    def setblocking(self, flag):
+        return None
+
+    def do_handshake(self):
+        k = nondet_int()
+        if k == 0:
+            raise ssl.SSLWantReadError
+        if k == 1:
+            raise ssl.SSLWantWriteError
+        if k == 2:
+            raise_any(OSError, ssl.SSLError)
+        return None
+
     def close(self):
         ghost.socket_closed = True
 
@@ -344,3 +357,20 @@ def make_thread_lock():
 def getpid():
     """os.getpid(): some process id (a fork changes it)."""
     return nondet_int()
+
+
+class SSLContextSync:
+    """ssl.SSLContext.wrap_socket(): the returned SSLSocket remembers whether ragged EOFs are suppressed (what its recv()
+    does on a truncated stream depends on it, see SSLSocket)."""
+
+    def wrap_socket(self, sock, server_side=False, do_handshake_on_connect=True, suppress_ragged_eofs=True, server_hostname=None, session=None):
+        if nondet_bool():
+            raise_any(OSError, ValueError)
+        s = SSLSocket()
+        s.suppress_ragged_eofs = suppress_ragged_eofs
+        ghost.ssl_wrapped = True
+        return s
+
+
+def mapping_proxy(d):
+    return d
